@@ -31,7 +31,7 @@ REPORT = ['modules', 'evaluations', 'byte_comparisons', 'decode_of_model_bytes',
           'selftest_vectors_passed', 'not_accepted_by_checks', 'carved_out', 'sender_option_form_seen']
 FLOORS = {'quick': {'byte_comparisons': 20000, 'decode_of_model_bytes': 15000},
           'thorough': {'byte_comparisons': 80000, 'decode_of_model_bytes': 60000}}
-TIMEOUT = {'quick': 1800, 'thorough': 14000}
+TIMEOUT = {'quick': 1800, 'thorough': 5400}
 
 
 def shards(tier):
